@@ -205,6 +205,12 @@ pub fn build_world_with_gap(coin: &'static refmodel::coins::Coin, chain: &[Block
             w.extra.push(Extra::File(format!("blk{}.dat", base), vec![0xfa; 100]));
         }
     }
+    // the network magic in front of the stored blocks is not the selected coin's in one layout out of five (regtest, testnet4,
+    // signet, zero bytes): the blocks are found through the index, not by scanning for a magic
+    let lh = refmodel::ev::h8(l.label.as_bytes());
+    if lh[0] % 5 == 2 {
+        w.replace_magic([[0xfa, 0xbf, 0xb5, 0xda], [0x1c, 0x16, 0x3f, 0x28], [0x0a, 0x03, 0xcf, 0x40], [0, 0, 0, 0]][(lh[1] % 4) as usize]);
+    }
     w
 }
 
